@@ -15,6 +15,19 @@ CHECKS = {
             "DESIGN.md §5 C34"),
 }
 
+CHAIN_NOTE = ("Trusts RefChain (src/nodesim/refchain.cpp: own merkle, subsidy, BIP30/34/68/113, maturity and value rules; shares only data types and hashing with /repo) and the generator's "
+              "script-validity labels; regtest parameters; single node, cooperative schedule (no worker threads).")
+CHAIN_TECH = "deterministic simulation: real node (chainstate, block storage, coins DB) driven by seeded block-tree histories with labelled defects, delivery reordering/duplication, manual invalidation, restarts and clock steps; oracle = executable reference chain model after every operation"
+def chain(text, ref):
+    return ("nodesim/chain", "exploration", text, CHAIN_NOTE, CHAIN_TECH, ref)
+CHECKS.update({
+    "C08": chain("Seeded search over block/header delivery histories (orders, duplicates, children before parents, unrequested, invalid blocks of every labelled kind, invalidateblock/reconsiderblock, clean restarts); after every operation the active tip must be model-valid, not under a manual invalidation, and have at least the work of every model-valid block whose whole ancestry the node holds data for. Exploration is the right level: the property quantifies over unbounded delivery histories.", "DESIGN.md §5 C08"),
+    "C01": chain("Seeded histories biased to value defects (coinbase +1 sat, in<out by 1 sat, outputs out of range/overflowing) and halving crossings; model verdict vs node verdict in both directions, UTXO set compared coin-for-coin with the model after every tip change and its total against the model's subsidy sum.", "DESIGN.md §5 C01"),
+    "C02": chain("Seeded histories biased to spend defects (missing/spent/later-in-block/duplicate/double-spent/unspendable inputs) placed after reorgs and flushes so the coin lives in different cache layers; invalid blocks never active, valid ones never rejected, UTXO equal to the model after every tip change.", "DESIGN.md §5 C02"),
+    "C05": chain("Seeded histories biased to nLockTime/BIP68/maturity boundaries: exactly-satisfied shapes must be accepted, one-short shapes must never become active; MTP sequences vary because block timestamps are generator-chosen.", "DESIGN.md §5 C05"),
+    "C09": chain("Fork-heavy seeded histories with transactions across fork points, invalidateblock-driven disconnects and forced flushes between connect and disconnect; after every tip change the set read through a CCoinsViewDB cursor equals the model's UTXO(tip) coin-for-coin (value, script, height, coinbase flag).", "DESIGN.md §5 C09"),
+})
+
 PURE = "pure function of its input: no schedule, clock, fault, peer or store in it (DESIGN.md §6)"
 NOT_APPLICABLE = {
     "C03": "CheckTransaction is a pure predicate on one transaction; " + PURE,
